@@ -82,4 +82,11 @@ class CompressedFileHandler(FileHandler):
     def write(self, wfile):
         decompprog = self.decompressors[self.getentry().realencoding]
         with self.vfs.open(self.getselector(), "rb") as fp:
-            subprocess.run([decompprog], stdin=fp, stdout=wfile)
+            try:
+                fp.fileno()
+            except (AttributeError, OSError):
+                # Not backed by a file descriptor (e.g. a ZIP member): feed
+                # the data to the decompressor through a pipe instead.
+                subprocess.run([decompprog], input=fp.read(), stdout=wfile)
+            else:
+                subprocess.run([decompprog], stdin=fp, stdout=wfile)
